@@ -31,7 +31,11 @@ type Par struct {
 }
 
 // Registry holds the component objects (layers, losses, optimizers) a case re-uses across instructions.
-type Registry struct{ objs map[int]any }
+type Registry struct {
+	objs map[int]any
+	ints map[string][]int          // non-nil: one slice object per distinct dimension list (NewReusingRegistry)
+	rngs map[string][]tensor.Range // non-nil: one slice object per distinct index
+}
 
 // Scope is the property whose check is running (QV_PROP; set for the worker processes by the farm). Differential
 // runs that realise ANOTHER property's scenario are only made when that property is the one being checked: the run
@@ -49,6 +53,36 @@ type sgdSlot struct {
 }
 
 func NewRegistry() *Registry { return &Registry{objs: map[int]any{}} }
+
+// NewReusingRegistry is a registry whose caller keeps ONE slice object per distinct dimension list and per distinct
+// index, and passes that same object in every call that needs those values - as a program does that holds its index in
+// a variable. The slices are the caller's: whatever the library is given, the caller still believes they hold what it
+// wrote into them.
+func NewReusingRegistry() *Registry {
+	return &Registry{objs: map[int]any{}, ints: map[string][]int{}, rngs: map[string][]tensor.Range{}}
+}
+
+// Changed names a caller-owned slice of a reusing registry that no longer holds what the caller wrote into it ("" if none).
+func (r *Registry) Changed() string {
+	if r == nil {
+		return ""
+	}
+	for k, v := range r.ints {
+		if fmt.Sprint(v) != k {
+			return fmt.Sprintf("the caller's dimension list %s now holds %v", k, v)
+		}
+	}
+	for k, v := range r.rngs {
+		cur := make([][2]int, len(v))
+		for i, x := range v {
+			cur[i] = [2]int{x.From, x.To}
+		}
+		if fmt.Sprint(cur) != k {
+			return fmt.Sprintf("the caller's index %s now holds %v", k, cur)
+		}
+	}
+	return ""
+}
 
 func (r *Registry) get(inst int, make func() (any, error)) (any, error) {
 	if r == nil || inst == 0 {
@@ -296,11 +330,29 @@ func ApplyIn(reg *Registry, op string, par Par, args []Tensor) (Tensor, *Passed,
 		if s == nil {
 			return nil
 		}
+		if reg != nil && reg.ints != nil {
+			k := fmt.Sprint(s)
+			if c, ok := reg.ints[k]; ok {
+				return c
+			}
+			c := append([]int{}, s...)
+			reg.ints[k] = c
+			return c
+		}
 		c := append([]int{}, s...)
 		p.Ints = append(p.Ints, c)
 		return c
 	}
 	ranges := func(index [][2]int) []tensor.Range {
+		if index != nil && reg != nil && reg.rngs != nil {
+			k := fmt.Sprint(index)
+			if r, ok := reg.rngs[k]; ok {
+				return r
+			}
+			r := ranges(index)
+			reg.rngs[k] = r
+			return r
+		}
 		r := ranges(index)
 		if r != nil {
 			p.Ranges = append(p.Ranges, r)
@@ -366,6 +418,10 @@ func apply(reg *Registry, op string, par Par, args []Tensor, cp func([]int) []in
 		return a.StdAlong(par.Dim)
 	case "meanalong":
 		return a.MeanAlong(par.Dim)
+	case "detach":
+		// post instruction only: the tensor itself, made an untracked leaf (values are untouched)
+		a.ResetGradContext(false)
+		return a, nil
 	case "scale":
 		return a.Scale(par.K.Float()), nil
 	case "pow":
